@@ -150,7 +150,7 @@ theorem core_h1 (as bs : List Nat) (n q : Nat) (has : as ≠ []) (hq : bs.length
     h0
   rw [hc, hW]
 
-/-- what toom8h_mul.c:147-150 asserts about the decomposition, and what the evaluation/interpolation needs:
+/-- what toom8h_mul.c:145-148 asserts about the decomposition, and what the evaluation/interpolation needs:
     the degrees add up to 14 (half = 0) or 15 (half = 1); q ≥ 3 (the degree-3 helper is used exactly for 4 blocks);
     the recursive products are on n + 1 < bn limbs (the recursion is well founded) -/
 def SplitOk (bn : Nat) (sp : Split) : Prop :=
@@ -229,7 +229,7 @@ theorem splitPQ_13_4 (an bn : Nat) (h1 : an ≥ bn) (h2 : bn ≥ 86) (h3 : an * 
     apply_ite Split.half]
   split_ifs <;> simp at * <;> omega
 
-/-- toom8h_mul.c:96-150: for EVERY (an, bn) in the asserted domain the decomposition passes the C's own ASSERTs
+/-- toom8h_mul.c:97-148: for EVERY (an, bn) in the asserted domain the decomposition passes the C's own ASSERTs
     (0 < s ≤ n, 0 < t ≤ n, half || s + t > 3, n > 2), the degrees add up to 14 (half = 0) or 15 (half = 1), and
     q ≥ 3. -/
 theorem split_ok (an bn : Nat) (h1 : an ≥ bn) (h2 : bn ≥ 86) (h3 : an * 4 ≤ bn * 13) : SplitOk bn (split an bn) := by
@@ -315,7 +315,7 @@ theorem toom8_sqr_core (as : List Nat) (n : Nat) (hlen : as.length = 8) :
   unfold recompose16
   rw [hc, hW]
 
-/-- toom8_sqr_n.c:65-72: the ASSERTs of the decomposition hold from MPN_TOOM8_SQR_N_MINSIZE = 58 on
+/-- toom8_sqr_n.c:66-73: the ASSERTs of the decomposition hold from MPN_TOOM8_SQR_N_MINSIZE = 58 on
     (`ASSERT (an >= 40)` alone does not imply them: an = 41 gives s = −1). -/
 theorem toom8_sqr_n_eq (sqr : Nat → Nat) (hsqr : ∀ x, sqr x = x * x) (a an : Nat) (h : an ≥ 58) :
     toom8_sqr_n sqr a an = some (a * a) := by
